@@ -242,7 +242,7 @@ func c09Backlog(modes []sysMode) func(x *X) {
 	return func(x *X) {
 		mode := modes[x.Choose(len(modes))]
 		k := x.Choose(10)
-		b := []int{9, 10, 17, 20}[x.Choose(4)]
+		b := []int{9, 10, 17, 20, 40, 70, 130}[x.Choose(7)]
 		withEmpty := x.Choose(2) == 1
 		cliDio := x.Choose(2) == 1
 		s := newSys(mode, srvOpts{bufSize: 64}, cliOpts{bufSize: 64, directIO: cliDio})
@@ -302,5 +302,88 @@ func c09Backlog(modes []sysMode) func(x *X) {
 }
 
 func init() {
-	register(&Scenario{Prop: "C09", Name: "c09/backlog", Quick: []Bound{{0, 0}}, Thorough: []Bound{{1, 0}, {2, 0}}, Body: c09Backlog([]sysMode{sysModes[0], sysModes[3]}), BudgetQ: 20, MaxSteps: 100000})
+	register(&Scenario{Prop: "C09", Name: "c09/backlog", Quick: []Bound{{0, 0}}, Thorough: []Bound{{1, 0}}, Body: c09Backlog([]sysMode{sysModes[0], sysModes[3]}), BudgetQ: 20, BudgetT: 200, MaxSteps: 400000})
+	// the same closed system judged for crashes only (C08: well-formed stream traffic, however much of it is unread, crashes nobody)
+	register(&Scenario{Prop: "C08", Name: "c08/stream-backlog", Quick: []Bound{{0, 0}}, Thorough: []Bound{{1, 0}}, Body: c09Backlog([]sysMode{sysModes[0], sysModes[3]}), BudgetQ: 20, BudgetT: 200, MaxSteps: 400000, OnlyKeys: []string{"panic/", "livelock/"}})
+	register(&Scenario{Prop: "C09", Name: "c09/two-readers", Quick: []Bound{{1, 0}, {2, 0}}, Thorough: []Bound{{3, 0}}, Body: twoReaders("C09"), BudgetQ: 15})
+	register(&Scenario{Prop: "C10", Name: "c10/two-readers", Quick: []Bound{{1, 0}, {2, 0}}, Thorough: []Bound{{3, 0}}, Body: twoReaders("C10"), BudgetQ: 15})
+}
+
+// two goroutines read from the same end of a stream (Stream is documented as usable from several
+// goroutines like the connection itself): two messages arriving back to back reach one reader
+// each (C09); when the stream is closed, the connection is closed or the peer disappears, every
+// blocked reader returns (C10).  The server handler does the same with two readers of its own.
+func twoReaders(prop string) func(x *X) {
+	return func(x *X) {
+		end := x.Choose(3) // how the stream ends: Stream.Close / Conn.Close / the peer disappears
+		f := newFixture(srvOpts{bufSize: 64}, cliOpts{bufSize: 64})
+		st, err := f.conn.NewStream("StreamSvc.Push")
+		if err != nil {
+			x.Fail(prop+"/open-failed/two-readers", "NewStream: %v", err)
+			return
+		}
+		type rd struct {
+			m   []byte
+			err error
+			ret bool
+		}
+		spawn := func(name string) *rd {
+			r := &rd{}
+			vs.GoNamed(name, func() {
+				r.err = st.ReadMessage(nil, &r.m)
+				r.m = append([]byte(nil), r.m...)
+				r.ret = true
+			})
+			return r
+		}
+		r1, r2 := spawn("reader1"), spawn("reader2")
+		vs.QuiesceKeep()
+		m1, m2 := streamMsg(0x31, 0), streamMsg(0x31, 1)
+		st.WriteMessage(&m1)
+		st.WriteMessage(&m2)
+		vs.Quiesce()
+		if prop == "C09" {
+			switch {
+			case !r1.ret || !r2.ret:
+				x.Fail("C09/client-blocked/two-readers", "two readers were blocked on one stream and two messages arrived: reader 1 returned=%v, reader 2 returned=%v", r1.ret, r2.ret)
+			case r1.err != nil || r2.err != nil:
+				x.Fail("C09/read-failed/two-readers", "readers returned %v / %v", r1.err, r2.err)
+			case !(eqBytes(r1.m, transform(m1)) && eqBytes(r2.m, transform(m2)) || eqBytes(r1.m, transform(m2)) && eqBytes(r2.m, transform(m1))):
+				x.Fail("C09/client-sequence/two-readers", "the two readers got %x and %x, the server wrote %x and %x", r1.m, r2.m, transform(m1), transform(m2))
+			}
+		}
+		if !r1.ret || !r2.ret {
+			x.Outcome("end=%d first-round-incomplete", end)
+			f.conn.Close()
+			vs.Quiesce()
+			return
+		}
+		// second round: both block again, then the stream ends
+		r3, r4 := spawn("reader3"), spawn("reader4")
+		vs.QuiesceKeep()
+		switch end {
+		case 0:
+			vs.GoNamed("closer", func() { st.Close() })
+		case 1:
+			vs.GoNamed("closer", func() { f.conn.Close() })
+		case 2:
+			vs.GoNamed("closer", func() { f.sv.Close() })
+		}
+		vs.Quiesce()
+		if prop == "C10" {
+			for i, r := range []*rd{r3, r4} {
+				if !r.ret {
+					x.Fail("C10/client-reader-blocked/two-readers", "two readers were blocked on one stream when it ended (%s): reader %d is still blocked", []string{"Stream.Close", "Conn.Close", "peer-EOF"}[end], i+1)
+				} else if r.err == nil {
+					x.Fail("C10/reader-outcome/two-readers", "a reader blocked when the stream ended returned no error")
+				}
+			}
+			if f.w.streamsEx != f.w.streamsIn {
+				x.Fail("C10/handler-blocked/two-readers", "%d stream handlers entered, %d returned after the stream ended", f.w.streamsIn, f.w.streamsEx)
+			}
+		}
+		x.Outcome("end=%d %v %v %v %v", end, r1.ret, r2.ret, r3.ret, r4.ret)
+		f.conn.Close()
+		vs.Quiesce()
+	}
 }
